@@ -11,8 +11,9 @@ scheme's description) is what the correspondence run instantiates and compares b
 the crate and with a third reference in the harness.
 
 * `nodes_eq_ref`     : appending one block to a changeset whose roots are the reference roots of `bs`
-  gives the reference roots of `bs ++ [b]`, and every node it creates (the leaf and each merged
-  parent — exactly what is persisted and logged) equals the reference node at its flat index;
+  gives the reference roots of `bs ++ [b]`, every node it creates (the leaf and each merged
+  parent — exactly what is persisted and logged) equals the reference node at its flat index, and
+  conversely every reference node whose span ends with the new block is among the created ones;
 * `batch_roots`      : the same for any batch;
 * `commit_keeps`     : committing such a changeset gives a tree whose roots/length/byte length are the
   reference ones — so the invariant holds across any sequence of `append_batch` calls (`history`);
@@ -30,7 +31,8 @@ open HC HC.Codec HC.Tree HC.RefTree HC.RefProof
 theorem nodes_eq_ref (C : Crypto) (bs : Array Bytes) (cs : Changeset) (b : Bytes) (h : RootsOK C bs cs) :
     RootsOK C (bs.push b) (Tree.append C cs b)
       ∧ ∃ added, (Tree.append C cs b).rnodes = added ++ cs.rnodes
-          ∧ ∀ n ∈ added, ∃ d o, n = nodeAt C (bs.push b) d o ∧ (o + 1) * 2 ^ d ≤ bs.size + 1 :=
+          ∧ (∀ n ∈ added, ∃ d o, n = nodeAt C (bs.push b) d o ∧ (o + 1) * 2 ^ d ≤ bs.size + 1)
+          ∧ (∀ d o, (o + 1) * 2 ^ d = bs.size + 1 → nodeAt C (bs.push b) d o ∈ added) :=
   append_ref C bs cs b h
 
 theorem batch_roots (C : Crypto) (batch : List Bytes) (bs : Array Bytes) (cs : Changeset) (h : RootsOK C bs cs) :
